@@ -1297,7 +1297,8 @@ void Bin::addPublicFreeListBlock(Block* block)
 {
     __TBB_VERIF_POINT(vp_tm_bin_mailbox, block, 0);
     MallocMutex::scoped_lock scoped_cs(mailLock);
-    block->nextPrivatizable.store(mailbox.load(std::memory_order_relaxed), std::memory_order_relaxed);
+    // release: pairs with the wait in Block::shareOrphaned of an exiting owner thread
+    block->nextPrivatizable.store(mailbox.load(std::memory_order_relaxed), std::memory_order_release);
     mailbox.store(block, std::memory_order_relaxed);
 }
 
@@ -1550,7 +1551,9 @@ void Block::shareOrphaned(intptr_t binTag, unsigned index)
             // but need to yield, so the thread we wait has a chance to run.
             // TODO: add a pause to also be friendly to hyperthreads
             int count = 256;
-            while ((intptr_t)nextPrivatizable.load(std::memory_order_relaxed) == binTag) {
+            // acquire: the wait is used as synchronization with the thread that has freed the object
+            // (the store in Bin::addPublicFreeListBlock); the block is changed and shared right after it
+            while ((intptr_t)nextPrivatizable.load(std::memory_order_acquire) == binTag) {
                 if (--count==0) {
                     do_yield();
                     count = 256;
